@@ -1,4 +1,4 @@
-HOOK_COMMITS = []
+HOOK_COMMITS = ["3019ee6"]
 NOTES = ("Model-based verification with explicit TLA+ specifications (see DESIGN.md). Verdicts come only from real-code "
          "behaviour: a TLC counterexample of the design model alone is exit 2, never a VIOLATION. known_findings.json lists "
          "genuine defects; fix: commits in /repo are listed there as fixed entries.")
@@ -107,5 +107,33 @@ CHECKS = {
           "prediction exactly (F-C20-2, F-C20-6: differential predictor, see known_findings.json); query failures (F-C20-3) are "
           "reported, not counted as wrong pruning.",
   "technique": "TLA+ spec (SparseIndex.tla) model-checked by TLC; TLC-generated (record, fragment size, column kinds, condition, time bounds) cases replayed into the real index writer, key condition, index reader and skip-index readers with an inclusion (soundness) comparison",
+ },
+ "C01": {
+  "text": "TLC exhaustively checks Wal.tla (write path, memtable flush and recovery at the granularity of file-system steps, crash "
+          "enabled in every state of run and recovery) for Durable / WalBeforeAck / RemoveAfterRename with Dev={} and confirms that "
+          "the as-implemented deviations and mutation seeds are caught; TLC-generated client histories are run on a real engine under "
+          "a file-system recorder (verif hook in lib/fileops), a crash image is frozen after file-system mutations (every one in the "
+          "thorough tier; torn-tail variants of the last log record; images taken inside recovery), restored and re-opened through the "
+          "production load path (Engine.Assign), and recovered contents are compared with the specification's acceptable outcomes; "
+          "the recorded event order of every run is validated by TLC against TraceWal.tla.",
+  "design_ref": "DESIGN.md section 5 C01",
+  "note": "process-kill semantics; single sequential client; one shard, tsstore engine; divergences are attributed to the open findings "
+          "F-C01-1/F-C01-2 only when the recovered contents equal the as-implemented model's prediction exactly AND replaying in "
+          "acknowledgement order without already-committed records would repair them; the series index is copied until quiescent and "
+          "images whose index cannot be opened are counted as inconclusive.",
+  "technique": "TLA+ spec (Wal.tla) model-checked by TLC; TLC-generated histories replayed into the real engine with crash-image enumeration; recorded fs-event traces validated by TLC (TraceWal.tla)",
+ },
+ "C03": {
+  "text": "TLC exhaustively checks Replace.tla (replacement protocol: new files as .init, compact log, renames, deletions, log removal, "
+          "merge tail; recovery by roll-forward/roll-back; up to three crashes incl. inside recovery) for Stable / LogResolvable and the "
+          "ordering action properties and confirms the mutation seeds are caught; Layout.tla behaviours are replayed into a real shard and "
+          "for every real level/full compaction and out-of-order merge a crash image is frozen after each of its file-system mutations, "
+          "restored, re-opened and fully read (plus images taken inside that recovery): contents must equal the contents before the "
+          "reorganisation; reads are also compared after every completed reorganisation; every reorganisation's recorded mutation order "
+          "is validated by TLC against TraceReplace.tla.",
+  "design_ref": "DESIGN.md section 5 C03",
+  "note": "plans are those the real planner picks on the prepared layouts (group size forced to 2) plus forced full compaction and merge; "
+          "max-rows-per-segment in {default,2,3,5} to get multi-segment files; process-kill semantics.",
+  "technique": "TLA+ spec (Replace.tla) model-checked by TLC; crash-image replay of real reorganisations; recorded fs-event traces validated by TLC (TraceReplace.tla)",
  },
 }
